@@ -587,7 +587,21 @@ def yacc_norm_texpr(t):
     if k in ("SEQUENCE", "SET", "CHOICE"):
         ty = (k, [(m if m[0] == "ext" else ("c", m[1], yacc_norm_texpr(m[2]), m[3])) for m in ty[1]])
     elif k in ("SEQUENCE OF", "SET OF"):
-        ty = (k, yacc_norm_constr(ty[1], True), yacc_norm_texpr(ty[2]))
+        e = ty[2]
+        if e[1][0] in ("SEQUENCE OF", "SET OF") and e[1][1] is None:
+            # "Outer constraint for SEQUENCE OF and SET OF applies to the inner type": yacc hangs the
+            # constraint that follows the innermost element type on the first member of the
+            # outermost OF, i.e. on the inner OF type (finding C12-nested-of)
+            chain, x = [], e
+            while x[1][0] in ("SEQUENCE OF", "SET OF"):
+                chain.append(x)
+                x = x[1][2]
+            if x[2] is not None:
+                moved, x = x[2], (x[0], x[1], None)
+                for y in reversed(chain):
+                    x = (y[0], (y[1][0], y[1][1], x), y[2])
+                e = (x[0], (x[1][0], moved, x[1][2]), x[2])
+        ty = (k, yacc_norm_constr(ty[1], True), yacc_norm_texpr(e))
     return (tag, ty, yacc_norm_constr(c, True))
 
 
